@@ -282,7 +282,7 @@ func TestC14_Scripted(t *testing.T) {
 func TestC14_Probes(t *testing.T) {
 	c := ev.New("C14", "probes", "exploration")
 	t.Cleanup(c.Flush)
-	c.Rule("deterministic probes: SEARCH key COUNT counts only string objects (regression of search-count-shortcut, used by the count reads of the timed sub-check)")
+	c.Rule("deterministic probes: SEARCH key COUNT counts only string objects (regression of search-count-shortcut, used by the count reads of the timed sub-check); SET EX 9999999999999999999999, EXPIRE 1e30 and SETCHAN EX 1e22 survive a canary-proved sweep and report a TTL of at least 1e9 s (regression of expiry-overflow-huge-ex)")
 	srv, err := startServer("")
 	if err != nil {
 		t.Fatal(err)
@@ -298,6 +298,17 @@ func TestC14_Probes(t *testing.T) {
 		t.Errorf("search-count-shortcut regressed: %s", v)
 	}
 	c.NonTrivial("search-count")
+	c.Case()
+	bad, err := hugeEXProbe()
+	switch {
+	case err != nil:
+		c.Inconclusive("huge EX probe: %v", err)
+	case bad != "":
+		c.Violation("expiry-overflow-huge-ex", bad, map[string]any{"probe": "huge-ex"})
+		t.Errorf("expiry-overflow-huge-ex regressed: %s", bad)
+	default:
+		c.NonTrivial("huge-ex")
+	}
 }
 
 // followerProbe reproduces findingFollower directly: an object with a short
@@ -433,6 +444,14 @@ func TestReplay(t *testing.T) {
 				t.Errorf("VIOLATION-CANDIDATE key=%s: %s\n%s", res.V.Key, res.V.What, strings.Join(tail(res.History, 40), "\n"))
 				return
 			}
+		}
+	case "sweeprace":
+		replaySweepRace(t, c, doc.Data)
+	case "probes":
+		c.Case()
+		if bad, err := hugeEXProbe(); err == nil && bad != "" {
+			c.Violation("expiry-overflow-huge-ex", bad, map[string]any{"probe": "huge-ex"})
+			t.Errorf("expiry-overflow-huge-ex: %s", bad)
 		}
 	case "followerprobe":
 		c.Case()
